@@ -825,6 +825,30 @@ pub fn gen_program(r: &mut Rng, cfg: &GenCfg) -> Program {
     st.p
 }
 
+/// tracking flag of every handle after the program text so far
+pub fn current_flags(p: &Program) -> Vec<bool> {
+    let mut flags = vec![false; p.nodes.len()];
+    for (i, node) in p.nodes.iter().enumerate() {
+        match node {
+            Node::Leaf { tracked, .. } => flags[i] = *tracked,
+            Node::Op { kind, args, post, pre } => {
+                for (h, on) in pre {
+                    flags[*h] = *on;
+                }
+                let mut f = args.iter().any(|a| flags[*a]);
+                if kind.is_alias() {
+                    f = flags[args[0]];
+                }
+                if let Some(b) = post {
+                    f = *b;
+                }
+                flags[i] = f;
+            }
+        }
+    }
+    flags
+}
+
 fn pick_operand(r: &mut Rng, n: usize) -> usize {
     // half of the time prefer recent nodes (depth), otherwise uniform (sharing)
     if r.chance(1, 2) && n > 2 {
@@ -931,6 +955,15 @@ pub fn try_add_op(r: &mut Rng, cfg: &GenCfg, st: &mut GenState) {
         return;
     }
     let (kind, args) = r.pick(&cands).clone();
+    // `sum(0)` hands back its operand (today: the same node through a clone). Whether a copy of an UNTRACKED operand
+    // that is re-tracked later exposes the operand's own graph is an artefact of that aliasing, not a property: with
+    // toggles in play, sum(0) is only applied to operands that are tracked at that moment.
+    if kind.is_alias() && cfg.toggles {
+        let flags = current_flags(&st.p);
+        if !flags[args[0]] {
+            return;
+        }
+    }
     // matmul rank-1 x rank-1 only untransposed; matmul additive term only in the documented forms
     if let OpKind::Matmul { ta, tb, c } = &kind {
         let (ra, rb) = (st.refv[args[0]].dims.len(), st.refv[args[1]].dims.len());
